@@ -115,14 +115,15 @@ def check_transform(J, lib, part, item):
     def g(s):
         return f(mx, H.apply_state(dx0, s))
     n = len(states)
-    full = item.get("mode", "full") == "full"
+    full = item.get("mode", "full") == "full"          # "full": + un-jitted vmap; "eager": eager baseline without it; "jit": jit only
+    with_eager = item.get("mode", "full") in ("full", "eager")
     res = {}
     if full:
         res["vmap"] = jax.vmap(g)(S)
     res["jit_vmap"] = jax.jit(jax.vmap(g))(S)
     jg = jax.jit(g)
     per = [jg({k: v[i] for k, v in S.items()}) for i in range(n)]
-    eager_idx = list(range(min(item["neager"], n))) if full else []
+    eager_idx = list(range(min(item["neager"], n))) if with_eager else []
     eager = {i: g({k: v[i] for k, v in S.items()}) for i in eager_idx}
     stats = part.setdefault("stats", {})
     fam = item["name"].split("#")[0]
@@ -157,7 +158,8 @@ def check_transform(J, lib, part, item):
                    if i == 0 else None)
         if i in eager:
             cmp("jit/eager", per[i], eager[i], i)
-            cmp("vmap/eager", take(res["vmap"], i), eager[i], i)
+            if full:
+                cmp("vmap/eager", take(res["vmap"], i), eager[i], i)
             cmp("jit_vmap/eager", take(res["jit_vmap"], i), eager[i], i)
         else:
             if full:
@@ -519,17 +521,24 @@ def alphabet(thorough):
             models.append(G.tree_model("smooth[%s]" % ",".join(js), par, js, newton(ti), tendon=True, actuators=1, sensors=1))
     # transform.  mode "full": vmap (un-jitted), jit(vmap), jit per sample, eager per sample (neager samples);
     #             mode "jit":  jit(vmap) vs jit per sample on the whole lattice (eager is unaffordable on these models in quick)
+    quick_heavy = {0: {"forward": "full", "step": "full"}, 1: {"step": "eager"}, 2: {"forward": "eager"}}
     for mi, m in enumerate(minis):
         for fn in ["kinematics", "crb_factor", "forward", "step"] + (["com_pos", "fwd_position", "step2"] if thorough else []):
-            items.append(dict(m, task="transform", fn=fn, nstate=8 if thorough else 4, neager=4 if thorough else (1 if fn in ("forward", "step") else 2),
-                              mode="full"))
+            heavy = fn in ("forward", "step", "step2", "fwd_position")
+            mode = "full" if (thorough or not heavy) else quick_heavy[mi].get(fn)
+            if mode is None:
+                continue
+            items.append(dict(m, task="transform", fn=fn, nstate=8 if thorough else 4, neager=4 if thorough else (1 if heavy else 2),
+                              mode=mode))
     for mi, m in enumerate(models):
         if thorough:
             fns = ["kinematics", "com_pos", "crb_factor", "fwd_position", "forward", "step"]
         else:
             fns = [["forward"], ["step"], ["step"], ["forward"], [], []][mi]
         for fn in fns:
-            items.append(dict(m, task="transform", fn=fn, nstate=8, neager=1 if thorough else 0, mode="full" if thorough else "jit"))
+            heavy = fn in ("forward", "step", "fwd_position")
+            mode = "jit" if not thorough else ("full" if (mi < 6 or not heavy) else "jit")
+            items.append(dict(m, task="transform", fn=fn, nstate=8, neager=1 if mode != "jit" else 0, mode=mode))
     for mi, m in enumerate(models):
         items.append(dict(m, task="transfer", nstate=8 if thorough else 4, stepfirst=bool(mi % 2)))
         items.append(dict(m, task="makedata"))
